@@ -60,5 +60,6 @@ Emit == (ret' # "run") =>
           PrintT(<<"PLAN", ToJson([file |-> file, flags |-> flags, ret |-> ret', tells |-> tells', out |-> out',
                                    partial |-> partial', pos |-> pos', size |-> FileReal(file), seq |-> seq', si |-> si', bi |-> bi',
                                    valid |-> Valid(file, flags.concat, ~flags.ignoreCheck),
+                                   ialone |-> [k \in 1..Len(file.streams) |-> IndexAloneRet(file.streams[k])],
                                    fields |-> Fields(file)])>>)
 =============================================================================
